@@ -7,3 +7,8 @@ open Neutrino.BM
 #print axioms C19_disconnected_step
 #print axioms C19_backlog_shape
 #print axioms C19_disconnected
+#print axioms C19_replay_events
+#print axioms C19_replay_headers
+#print axioms C19_replay_cfwrite
+#print axioms loop_trace
+#print axioms rollBack_trace
